@@ -1010,11 +1010,18 @@ def indicator_value(ispec, sv, c):
             return len(busy_units), 0, None
         if rid in sv.cumul:
             return None, 0, "idle of cumulative"
-        b = sorted(busy, key=lambda x: x[1])
-        if any(hi <= lo for _, lo, hi in b) or len(b) < 1:
-            if len(b) == 0:
-                return 0, 0, None
-            return None, 0, "zero-length"
+        b = sorted(busy, key=lambda x: (x[1], x[2]))
+        if len(b) == 0:
+            return 0, 0, None
+        if any(hi < lo for _, lo, hi in b):
+            return None, 0, "negative-length"
+        if any(hi == lo for _, lo, hi in b):
+            # zero-length busy intervals: the idle time is still the sum of the gaps between consecutive
+            # intervals, as long as no two intervals share a start or an end (then the order is not defined)
+            starts = [lo for _, lo, _hi in b]
+            ends = [hi for _, _lo, hi in b]
+            if len(set(starts)) != len(starts) or len(set(ends)) != len(ends):
+                return None, 0, "zero-length with ties"
         return sum(b[i + 1][1] - b[i][2] for i in range(len(b) - 1)), 0, None
     if k == "ResourceCost":
         total = Fraction(0)
